@@ -50,6 +50,9 @@ CHECKS["C11"] = ("exhaustive enumeration of every single spelling deviation (cas
 CHECKS["C12"] = ("small-scope exhaustive enumeration of all SET/DB/DW sequences up to length 3 (4 in thorough) over a 45-item alphabet, assembled by the real Preprocessor and loaded by the real DataParser; whole-memory comparison with an independently computed image; every label checked three ways",
     "All definition sequences of the bound (values at the signed/unsigned extremes, counts 0..65535, strings, segments that wrap at 1 MB): the whole 1 MB equals the reference image, every label resolves to its first byte via the label map, via OFFSET and via a load through the label operand; more than 64 KiB per segment must be diagnosed; DS=0 at start through the CLI.",
     "DESIGN.md section 6 C12")
+CHECKS["C13"] = ("exhaustive enumeration of every macro use graph over up to 3 (4) macros plus parameter-name/template/argument-kind products; differential oracle: real Preprocessor on the macro program vs. real Preprocessor on the reference (textual, whole-word) expansion; deep chains through the real binary in child processes",
+    "All 2^(n*n) use graphs for n<=3 macros (n=4 in thorough) used from top level and from a procedure: acyclic ones must emit exactly the hand-expanded body, cyclic/unknown ones must be refused with a diagnostic at a use site; colliding parameter names x 9 body templates x 16 argument kinds; by-name passing; chains to depth 64 exactly and to 4096 without abort.",
+    "DESIGN.md section 6 C13")
 NOT_YET = {}
 
 def main():
